@@ -205,6 +205,81 @@ def accumulation_as_sum(f, var):
     return ast.Call(func=ast.Name(id='sum', ctx=ast.Load()), args=[comp], keywords=[])
 
 
+def dispatch_targets(P, f, key):
+    """the package functions a format key may dispatch to inside f: the entry of a {key: function} table, or the function
+    values assigned on the branches of an if-chain that the key can reach (tests `v == 'k'`, `v in (...)` are read)"""
+    out = set()
+    for n in all_nodes(f):
+        if isinstance(n, ast.Assign) and isinstance(n.value, ast.Dict):
+            for k_, v_ in dict_literal_items(n.value):
+                if k_ == key and not isinstance(v_, ast.Constant):
+                    q = P.canon(f, v_)
+                    if q:
+                        out.add(q)
+    for n in all_nodes(f):
+        if isinstance(n, ast.Assign) and len(n.targets) == 1 and isinstance(n.targets[0], ast.Name) and isinstance(n.value, (ast.Name, ast.Attribute)):
+            q = P.canon(f, n.value)
+            if q not in P.funcs:
+                continue
+            compatible = True
+            for t, pol in guards_of(n, f.node):
+                for conj in [literal_dnf(t, pol)]:
+                    if len(conj) != 1:
+                        continue
+                    for a_, pl in conj[0]:
+                        if isinstance(a_, ast.Compare) and len(a_.ops) == 1:
+                            cv = const_value(a_.comparators[0])
+                            if isinstance(a_.ops[0], (ast.Eq, ast.NotEq)) and isinstance(cv, str):
+                                hit = (cv == key) == isinstance(a_.ops[0], ast.Eq)
+                                if hit != pl:
+                                    compatible = False
+                            elif isinstance(a_.ops[0], (ast.In, ast.NotIn)) and isinstance(cv, (tuple, list)):
+                                hit = (key in cv) == isinstance(a_.ops[0], ast.In)
+                                if hit != pl:
+                                    compatible = False
+            if compatible:
+                out.add(q)
+    return out
+
+
+def read_tables(P, f):
+    """the dictionary-valued locals of f that act as lookup tables: {name: ({key: value node}, defining statement)}.
+    Read are a dict display (also `{}` / dict()) and the unconditional item stores `name[key] = value` that follow it; a key is
+    a constant or `<package class>.__name__`"""
+    out = {}
+    for n in all_nodes(f):
+        if isinstance(n, ast.Assign) and len(n.targets) == 1 and isinstance(n.targets[0], ast.Name) and \
+                (isinstance(n.value, ast.Dict) or (isinstance(n.value, ast.Call) and u(n.value.func) == 'dict' and not n.value.args and not n.value.keywords)):
+            items = dict(dict_literal_items(n.value)) if isinstance(n.value, ast.Dict) else {}
+            items = {k: v for k, v in items.items() if k is not NotImplemented}
+            out[n.targets[0].id] = (items, n)
+    for n in all_nodes(f):
+        if isinstance(n, ast.Assign) and len(n.targets) == 1 and isinstance(n.targets[0], ast.Subscript) and isinstance(n.targets[0].value, ast.Name) \
+                and n.targets[0].value.id in out and not explicit_guards_of(n, f.node) and in_loop(n, f.node) is None:
+            k = n.targets[0].slice
+            key = const_value(k)
+            if key is NotImplemented and isinstance(k, ast.Attribute) and k.attr == '__name__':
+                q = P.canon(f, k.value)
+                key = q.split('.')[-1] if q in P.classes else NotImplemented
+            if key is not NotImplemented:
+                out[n.targets[0].value.id][0][key] = n.value
+    return out
+
+
+def alternatives(e):
+    """the values an expanded expression may take: __phi__ arguments and both arms of conditional expressions, flattened"""
+    if is_marker(e, '__phi__'):
+        return [x for a_ in e.args for x in alternatives(a_)]
+    if isinstance(e, ast.IfExp):
+        return alternatives(e.body) + alternatives(e.orelse)
+    return [e]
+
+
+def literal_nf(N, atom, pol):
+    """normal form of a guard literal (atom, polarity): `not a > b` and `a <= b` coincide"""
+    return N.nf(atom if pol else ast.UnaryOp(op=ast.Not(), operand=atom))
+
+
 def canon_calls(P, f, expr):
     """copy of an expression in which the callees that resolve to global names are written canonically (np.x -> numpy.x)"""
     from ..core.sym import clone
@@ -223,36 +298,59 @@ def canon_calls(P, f, expr):
 def accumulation_as_list(f, var):
     """`var = []; for t in it: var.append(term)` (one unconditional loop, no break/continue, nothing else touches var before the
     loop ends) -> the equivalent list comprehension `[term for t in it]`; None if the shape differs"""
-    inits = [a for a in find_assignments(f, var) if isinstance(a, ast.Assign)]
+    r = accumulation_alternatives(f, var)
+    return r[0][0] if r is not None and len(r) == 1 else None
+
+
+def accumulation_alternatives(f, var):
+    """like accumulation_as_list, for a list filled by one loop per branch of an if/else: [(comprehension, loop statement)],
+    the loops being mutually exclusive; None if the shape differs"""
+    if var.isidentifier():
+        inits = [a for a in find_assignments(f, var) if isinstance(a, ast.Assign)]
+    else:
+        # a container slot such as out['catalog']
+        inits = [a for a in all_nodes(f) if isinstance(a, ast.Assign) and len(a.targets) == 1 and u(a.targets[0]) == var]
     if len(inits) != 1 or not (isinstance(inits[0].value, ast.List) and not inits[0].value.elts or
                                (isinstance(inits[0].value, ast.Call) and u(inits[0].value.func) == 'list' and not inits[0].value.args)):
         return None
     apps = [n for n in all_nodes(f) if isinstance(n, ast.Call) and isinstance(n.func, ast.Attribute) and n.func.attr in ('append', 'extend', 'insert')
-            and isinstance(n.func.value, ast.Name) and n.func.value.id == var]
-    if len(apps) != 1 or apps[0].func.attr != 'append' or len(apps[0].args) != 1:
+            and u(n.func.value) == var]
+    if not apps or len(apps) > 4 or in_loop(inits[0], f.node) is not None:
         return None
-    st = stmt_of(apps[0])
-    lp = in_loop(st, f.node)
-    if not isinstance(st, ast.Expr) or not isinstance(lp, ast.For) or lp.orelse or in_loop(lp, f.node) is not None or in_loop(inits[0], f.node) is not None:
-        return None
-    if not any(st is s_ for s_ in lp.body):
-        return None
-    if any(isinstance(x, (ast.Break, ast.Continue, ast.Return)) for x in ast.walk(lp)):
-        return None
-    # the appended term may depend on temporaries computed earlier in the same iteration: substitute them
-    term = apps[0].args[0]
-    local = {}
-    for s_ in lp.body:
-        if s_ is st:
-            break
-        if isinstance(s_, ast.Assign) and len(s_.targets) == 1 and isinstance(s_.targets[0], ast.Name):
-            local[s_.targets[0].id] = substitute(s_.value, local)
-        elif isinstance(s_, (ast.If, ast.For, ast.While, ast.Try, ast.With)):
-            stored = {t.id for t in ast.walk(s_) if isinstance(t, ast.Name) and isinstance(t.ctx, ast.Store)}
-            if stored & {t.id for t in ast.walk(term) if isinstance(t, ast.Name)}:
+    out = []
+    for app in apps:
+        if app.func.attr != 'append' or len(app.args) != 1:
+            return None
+        st = stmt_of(app)
+        lp = in_loop(st, f.node)
+        if not isinstance(st, ast.Expr) or not isinstance(lp, ast.For) or lp.orelse or in_loop(lp, f.node) is not None:
+            return None
+        if not any(st is s_ for s_ in lp.body):
+            return None
+        if any(isinstance(x, (ast.Break, ast.Continue, ast.Return)) for x in ast.walk(lp)):
+            return None
+        # the appended term may depend on temporaries computed earlier in the same iteration: substitute them
+        term = app.args[0]
+        local = {}
+        for s_ in lp.body:
+            if s_ is st:
+                break
+            if isinstance(s_, ast.Assign) and len(s_.targets) == 1 and isinstance(s_.targets[0], ast.Name):
+                local[s_.targets[0].id] = substitute(s_.value, local)
+            elif isinstance(s_, (ast.If, ast.For, ast.While, ast.Try, ast.With)):
+                stored = {t.id for t in ast.walk(s_) if isinstance(t, ast.Name) and isinstance(t.ctx, ast.Store)}
+                if stored & {t.id for t in ast.walk(term) if isinstance(t, ast.Name)}:
+                    return None
+        term = substitute(term, local)
+        out.append((ast.ListComp(elt=term, generators=[ast.comprehension(target=lp.target, iter=lp.iter, ifs=[], is_async=0)]), lp))
+    # several loops: pairwise in opposite arms of one test
+    for i in range(len(out)):
+        for j in range(i + 1, len(out)):
+            gi = {(id(t), pol) for t, pol in explicit_guards_of(out[i][1], f.node)}
+            gj = {(id(t), pol) for t, pol in explicit_guards_of(out[j][1], f.node)}
+            if not any((t, not pol) in gj for t, pol in gi):
                 return None
-    term = substitute(term, local)
-    return ast.ListComp(elt=term, generators=[ast.comprehension(target=lp.target, iter=lp.iter, ifs=[], is_async=0)])
+    return out
 
 
 def element_of(P, f, expr, depth=0):
